@@ -1331,6 +1331,17 @@ def distinctCkpt (seen : List String) : List String := seen.reverse
 /-- `restore_checkpoint`: `seen.clear()`, then the keys are inserted from the back -/
 def distinctRestore (keys : List String) : List String := keys.reverse.foldl lruInsert []
 
+/-- `RuntimeOp::Distinct` on one event: `seen.insert(key, ()).is_none()` — the event passes iff its
+key was not in the LRU; either way the key becomes the most recent one (the capacity of 100 000
+keys is not modelled) -/
+def distinctStep (seen : List String) (key : String) : List String × Bool :=
+  (lruInsert seen key, !seen.contains key)
+
+/-- `RuntimeOp::Limit` on a batch of `n` events: `truncate(max - count)`, then count what passed -/
+def limitStep (l : Nat × Nat) (n : Nat) : (Nat × Nat) × Nat :=
+  let pass := min n (l.1 - l.2)
+  ((l.1, l.2 + pass), pass)
+
 /-- `PerSourceWatermarkTracker` + the engine's `last_applied_watermark`
 (`max_out_of_orderness` in whole milliseconds: it comes from the program text) -/
 structure SrcWm where
